@@ -370,7 +370,14 @@ namespace {
         for (int v : twin.trace) {
           wt += std::to_string(v) + ",";
         }
-        h = fnv1a(got + "|" + gt, h);
+        {
+          // the run directory contains the process id: keep it out of the event hash
+          std::string norm = got;
+          for (size_t pos = norm.find(root); pos != std::string::npos; pos = norm.find(root)) {
+            norm.replace(pos, root.size(), "<root>/");
+          }
+          h = fnv1a(norm + "|" + gt, h);
+        }
         r.counters["ops"] += 1;
         if (got[0] == '!') {
           r.counters["probe_operation_raised"] += 1;
